@@ -401,6 +401,50 @@ func runC19(c *Ctx) {
 			c.Require("C19.R5 search-not-below-finalized", FuncKey(common), p.InstrPos(s.Call), "the common-block search is bounded below by the finalized height", strings.HasSuffix(t, ".FinalizedBlockHeader.Height"), t)
 		}
 		c.MinInstances("C19.R5 search-not-below-finalized", len(CallsIn(common, "consensus/sync.getHeightWithGap")), 1)
+		// "no common block among these" means "look further down", down to the finalized block that
+		// every honest peer shares: the not-found answer always leads to another round of the
+		// search (with a lower window), never out of it
+		{
+			cf := factsOf(common)
+			loops := naturalLoops(common)
+			nf := 0
+			for i, e := range cf.Edges {
+				f := cf.Facts[i]
+				if f.IsCmp || !f.Truth || f.B.Op != "call" || f.B.Sym != "errors.Is" || !strings.Contains(f.B.String(), "errCommonBlockNotFound") {
+					continue
+				}
+				nf++
+				var li *loopInfo
+				for _, l := range loops {
+					if l.Blocks[e.From] {
+						li = l
+					}
+				}
+				leaves := false
+				if li == nil {
+					leaves = true
+				} else {
+					seen := map[*ssa.BasicBlock]bool{}
+					var walk func(b *ssa.BasicBlock)
+					walk = func(b *ssa.BasicBlock) {
+						if seen[b] || b == li.Header {
+							return
+						}
+						seen[b] = true
+						if !li.Blocks[b] {
+							leaves = true
+							return
+						}
+						for _, sx := range b.Succs {
+							walk(sx)
+						}
+					}
+					walk(e.To)
+				}
+				c.Require("C19.R5 not-found-searches-further", FuncKey(common)+": peer reports no common block", p.InstrPos(e.If), "the not-found answer leads to the next round of the search on every path (the search ends only by its own trial count or an error)", !leaves, "")
+			}
+			c.MinInstances("C19.R5 not-found-searches-further", nf, 1)
+		}
 		// capture rule on the polling goroutines
 		for _, sp := range spawnsIn(bsync) {
 			bad := 0
